@@ -26,14 +26,14 @@ import (
 func init() {
 	Register(&Spec{
 		ID: "C01", Level: "exploration",
-		Rule: "cases = chains driven by the coinswap director (add/remove/one-sided add/remove/4 swap kinds x single/double hop/donations/fee changes of which one in three is rolled back with its transaction, amounts from magnitude classes up to 2^128 with tight/loose bounds) plus direct calls of GetInputPrice/GetOutputPrice; a case is non-trivial when the tx succeeded (or the pure call returned) and the share-value or leg relation was evaluated; distinct = distinct (op kind, hop, magnitude class of reserves, magnitude of amount, fee config, relation outcome strict/equal)",
+		Rule: "cases = chains driven by the coinswap director (add/remove/one-sided add/remove/4 swap kinds x single/double hop/donations/fee changes of which one in three is rolled back with its transaction, amounts from magnitude classes up to 2^128 with tight/loose bounds) plus direct calls of GetInputPrice/GetOutputPrice; a case is non-trivial when the tx succeeded (or the pure call returned) and the share-value or leg relation was evaluated; distinct = distinct (op kind, hop, magnitude class of reserves, magnitude of amount, fee config, relation outcome strict/equal); since rounds 11-14: orders buying what they sell, recipients in upper-case bech32 and as 32-byte addresses, a vesting account opened at the next pool's reserve address, every fourth chain restarted once from its own export (a pool whose denomination does not sort last opened before, another after)",
 		Assume: []string{"pool reserves are the bank balances of the pool escrow address in the two pool denoms", "fee in force is the params value read before the tx", "Int overflow panics (beyond 256 bit) are rejections"},
 		Cases:  func(t string) int { return tierN(t, 16, 64) },
 		Run:    func(run *ev.Run, c int) { runCoinswap(run, c, "C01") },
 	})
 	Register(&Spec{
 		ID: "C02", Level: "exploration",
-		Rule: "same director as C01; monitor = complete bank balance sheet (every account, every denom, every supply) before/after every tx against the expected-delta model of the message; non-trivial = successful coinswap tx whose full delta was compared; distinct = distinct (msg kind, hop, recipient kind, bound kind, deadline kind, pool-created flag)",
+		Rule: "same director as C01; monitor = complete bank balance sheet (every account, every denom, every supply) before/after every tx against the expected-delta model of the message; non-trivial = successful coinswap tx whose full delta was compared; distinct = distinct (msg kind, hop, recipient kind, bound kind, deadline kind, pool-created flag); since rounds 11-14: tight minima on refills of emptied pools, recipients in upper-case bech32 / 32 bytes, restart from the chain's own export in every fourth chain",
 		Assume: []string{"tx fees are zero in the harness so the ante handler moves no coins", "a failed tx leaves no trace because BaseApp drops its branch (checked at the next observation point)"},
 		Cases:  func(t string) int { return tierN(t, 16, 64) },
 		Run:    func(run *ev.Run, c int) { runCoinswap(run, c, "C02") },
